@@ -50,7 +50,9 @@ type Input struct {
 	Meta    *Meta         `json:"meta,omitempty"` // nil: the client omits the four parameters
 	Formats []string      `json:"formats"`        // groups, lines, trie, tree
 	Upload  []string      `json:"upload"`         // remote, direct
-	Tags    string        `json:"tags"`           // "" or "{k=v,...}"
+	Tags    string        `json:"tags"`           // "" or "{k=v,...}" (older corpus files)
+	AppX    string        `json:"appx,omitempty"` // suffix of the application name: characters that are significant in URLs
+	TagKV   [][2]string   `json:"tagkv,omitempty"` // structured tags (used instead of Tags when present)
 	Slot    int           `json:"slot"`           // which 10 s window
 	UseCT   bool          `json:"use_ct"`         // select trie/tree by Content-Type instead of format=
 	Raw     []byte        `json:"raw,omitempty"`  // arbitrary body for the two text parsers only
@@ -151,8 +153,24 @@ func (e *env) close() {
 // ---------------------------------------------------------------------------------------------
 // generator
 
-var spies = []string{"gospy", "rbspy", "ebpfspy", "my spy", "py=spy&x"}
-var unitsL = []string{"samples", "objects", "bytes", "lock_nanoseconds"}
+var spies = []string{"gospy", "rbspy", "ebpfspy", "my spy", "py=spy&x", "c++spy", "spy%20x#1", "spy;a/b?c", "шпион"}
+var unitsL = []string{"samples", "objects", "bytes", "lock_nanoseconds", "lock+nanoseconds", "a&b=c%", "é/s"}
+
+// characters that are significant in URLs but legal in application names and tag values
+var appSuffixes = []string{"", "", ".c++", ".r&d", ".100%", ".a=b", ".what?", ".#1", ".x;y", ".a/b", ".two words", ".é", ".a+b&c%3D#?;/ d"}
+var tagVals = []string{"prod", "c++", "r&d", "100%", "a=b", "why?", "#7", "x;y", "a/b", "us west", "zürich", "+&%=?#;/ é", "%2B"}
+var tagKeys = []string{"env", "lang", "team", "k+1", "a&b", "q?", "p/q", "ключ"}
+
+func tagsString(kv [][2]string) string {
+	if len(kv) == 0 {
+		return ""
+	}
+	parts := make([]string, len(kv))
+	for i, p := range kv {
+		parts[i] = p[0] + "=" + p[1]
+	}
+	return "{" + strings.Join(parts, ",") + "}"
+}
 var aggs = []string{"sum", "average"}
 var rates = []uint32{1, 100, 250, 1000, 4294967295}
 
@@ -237,8 +255,18 @@ func gen(r *rand.Rand, idx int, tier string) Input {
 			in.Upload = append(in.Upload, "direct")
 		}
 	}
-	if lib.Chance(r, 0.3) {
-		in.Tags = lib.Pick(r, []string{"{env=prod}", "{a=b,c=d}", "{region=us west}"})
+	in.AppX = lib.Pick(r, appSuffixes)
+	if lib.Chance(r, 0.5) {
+		n := lib.Range(r, 1, 3)
+		used := map[string]bool{}
+		for i := 0; i < n; i++ {
+			k := lib.Pick(r, tagKeys)
+			if used[k] {
+				continue
+			}
+			used[k] = true
+			in.TagKV = append(in.TagKV, [2]string{k, lib.Pick(r, tagVals)})
+		}
 	}
 	in.UseCT = lib.Chance(r, 0.3)
 	return in
@@ -432,7 +460,7 @@ func run(in Input) (res lib.Result) {
 			msItems[i] = lib.Pair(cbytes(s.Key), lib.N(s.V))
 		}
 		coq := "{| c_ms := " + lib.List(msItems) + "; c_text_ok := false; c_meta := None; c_groups := None; c_lines := None; c_trie := None; c_tree := None; " +
-			"c_job := None; c_remote := None; c_direct := None; c_go_groups := None; c_go_lines := None; c_raw := " +
+			"c_job := None; c_series := None; c_remote := None; c_direct := None; c_go_groups := None; c_go_lines := None; c_raw := " +
 			lib.Some("("+cbytes(in.Raw)+", "+parseGroupsGo(in.Raw)+", "+parseLinesGo(in.Raw)+")") +
 			"; c_raw_groups := " + rg + "; c_raw_lines := " + rl + " |}"
 		return lib.Result{Coq: coq, NonTrivial: false, Feat: map[string]interface{}{"class": "raw", "raw_len": len(in.Raw), "raw_with_intent": len(in.MS) > 0}}
@@ -491,9 +519,14 @@ func run(in Input) (res lib.Result) {
 		bodies["tree"] = b.Bytes()
 	}
 
+	tags := in.Tags
+	if len(in.TagKV) > 0 {
+		tags = tagsString(in.TagKV)
+	}
+	tags = in.AppX + tags // appended to "<base>.<path>": application name suffix, then the tags
 	sentCoq := map[string]string{"groups": none, "lines": none, "trie": none, "tree": none}
 	for _, f := range in.Formats {
-		name := base + "." + f + in.Tags
+		name := base + "." + f + tags
 		q := url.Values{}
 		q.Set("name", name)
 		q.Set("from", strconv.FormatInt(st.Unix(), 10))
@@ -530,7 +563,14 @@ func run(in Input) (res lib.Result) {
 			"; sn_body := " + lib.Bytes(body) + "; sn_stored := " + e.readBack(name, st, et, rec.Code) + " |}")
 	}
 
-	jobCoq, remoteCoq, directCoq := none, none, none
+	jobCoq, remoteCoq, directCoq, seriesCoq := none, none, none, none
+	if len(in.TagKV) > 0 || in.Tags == "" {
+		items := make([]string, len(in.TagKV))
+		for i, p := range in.TagKV {
+			items[i] = lib.Pair(lib.Bytes([]byte(p[0])), lib.Bytes([]byte(p[1])))
+		}
+		seriesCoq = lib.Some(lib.Pair(lib.Bytes([]byte(base+".remote"+in.AppX)), lib.List(items)))
+	}
 	if in.Meta != nil && len(in.Upload) > 0 {
 		mkJob := func(name string) *upstream.UploadJob {
 			return &upstream.UploadJob{Name: name, StartTime: st, EndTime: et, SpyName: in.Meta.Spy, SampleRate: in.Meta.Rate,
@@ -539,7 +579,7 @@ func run(in Input) (res lib.Result) {
 		for _, u := range in.Upload {
 			switch u {
 			case "remote":
-				name := base + ".remote" + in.Tags
+				name := base + ".remote" + tags
 				j := mkJob(name)
 				err := e.rem.UploadSync(j)
 				status := 200
@@ -556,9 +596,9 @@ func run(in Input) (res lib.Result) {
 					"; j_aggregation := " + lib.Bytes([]byte(in.Meta.Agg)) + " |}")
 				remoteCoq = lib.Some("(" + coqQuery(q) + ", " + lib.Bytes([]byte(ct)) + ", " + e.readBack(name, st, et, status) + ")")
 			case "direct":
-				name := base + ".direct" + in.Tags
+				name := base + ".direct" + tags
 				e.dir2.Upload(mkJob(name))
-				e.waitDirect(base+".direct", st, et)
+				e.waitDirect(strings.TrimSpace(base+".direct"+in.AppX), st, et)
 				if jobCoq == none {
 					jobCoq = lib.Some("{| j_name := " + lib.Bytes([]byte(name)) + "; j_start := " + lib.N(uint64(st.Unix())) +
 						"; j_end := " + lib.N(uint64(et.Unix())) + "; j_spy := " + lib.Bytes([]byte(in.Meta.Spy)) +
@@ -592,7 +632,7 @@ func run(in Input) (res lib.Result) {
 	}
 	coq := "{| c_ms := " + treeu.CoqStacks(in.MS) + "; c_text_ok := " + lib.Bool(textok) + "; c_meta := " + metaCoq +
 		"; c_groups := " + sentCoq["groups"] + "; c_lines := " + sentCoq["lines"] + "; c_trie := " + sentCoq["trie"] +
-		"; c_tree := " + sentCoq["tree"] + "; c_job := " + jobCoq + "; c_remote := " + remoteCoq + "; c_direct := " + directCoq +
+		"; c_tree := " + sentCoq["tree"] + "; c_job := " + jobCoq + "; c_series := " + seriesCoq + "; c_remote := " + remoteCoq + "; c_direct := " + directCoq +
 		"; c_go_groups := " + goGroups + "; c_go_lines := " + goLines + "; c_raw := None; c_raw_groups := None; c_raw_lines := None |}"
 
 	// features: prefix structure
@@ -636,7 +676,7 @@ func run(in Input) (res lib.Result) {
 		NonTrivial: nonBoundary || prefixOf,
 		Feat: map[string]interface{}{"class": in.Class, "formats": strings.Join(in.Formats, ","), "upload": strings.Join(in.Upload, ","),
 			"non_boundary_prefix": nonBoundary, "prefix_of_another": prefixOf, "repeats": repeats, "count_magnitude": mag,
-			"meta_omitted": in.Meta == nil, "stacks": len(in.MS), "by_content_type": in.UseCT, "tags": in.Tags != ""},
+			"meta_omitted": in.Meta == nil, "stacks": len(in.MS), "by_content_type": in.UseCT, "tags": len(in.TagKV), "app_suffix": in.AppX},
 	}
 }
 
